@@ -171,27 +171,20 @@ class QintImp(int, Qtype):
         (x << 3) + (x << 1) # Here 10*x is computed as x*2^3 + x*2
         """
 
-        # Multiply t_num by the nearest n | 2**n < t_const
-        n = 1
-        while 2**n <= const:
-            n += 1
-        if 2**n > const:
-            n -= 1
-
         result_ttype = cast(TType, result_type)
 
-        t_num_r = result_type.shift_left((result_ttype, t_num[1]), n)
+        # Sum the shifted copies of t_num selected by the bits set in const; every
+        # term is extended to the result size, so no carry is lost
+        res = None
+        for k in range(const.bit_length()):
+            if (const >> k) & 1:
+                term = result_type.fill(
+                    result_type.shift_left((result_ttype, t_num[1]), k)
+                )
+                res = term if res is None else result_type.add(res, term)
 
-        # Shift t_const by t_const - 2**n
-        r = const - 2**n
-        if r > 0:
-            # Add the shift result to t_num
-            res = result_type.add(
-                (result_ttype, t_num_r[1]),
-                result_type.shift_left((result_ttype, t_num[1]), int(r / 2)),
-            )
-        else:
-            res = (result_ttype, t_num_r[1])
+        if res is None:  # const is zero
+            res = result_type.fill((result_ttype, []))
 
         return res
 
